@@ -160,8 +160,8 @@ static void exhaustiveCase(uint64_t idx, CaseResult &r) {
 
 int main(int argc, char **argv) {
   std::vector<vf::Part> parts;
-  parts.push_back({"c14.random", [](uint64_t, Rng &rng, CaseResult &r) { randomCase(rng, r, false); }, 120});
-  parts.push_back({"c14.zeros", [](uint64_t, Rng &rng, CaseResult &r) { randomCase(rng, r, true); }, 120});
-  parts.push_back({"c14.exhaustive", [](uint64_t idx, Rng &, CaseResult &r) { exhaustiveCase(idx, r); }, 1200});
+  parts.push_back({"c14.random", [](uint64_t, Rng &rng, CaseResult &r) { randomCase(rng, r, false); }, 10});
+  parts.push_back({"c14.zeros", [](uint64_t, Rng &rng, CaseResult &r) { randomCase(rng, r, true); }, 10});
+  parts.push_back({"c14.exhaustive", [](uint64_t idx, Rng &, CaseResult &r) { exhaustiveCase(idx, r); }, 300});
   return vf::runMain(argc, argv, parts);
 }
